@@ -131,3 +131,35 @@ func TestFinding_removed_store_served_again_after_leader_round_trip(t *testing.T
 		"member A: stores 1,2 up; handover to B; RemoveStore(1), checkStores (buried=%v), RemoveTombStoneRecords (errors %v, gone on B=%v); handover back to A: store 1 served as %s, record in storage=%v",
 		buried, steps, goneOnB, state, inStorage))
 }
+
+// TestFinding_failed_setstoreweight_leaves_weight_keys: SetStoreWeight writes the leader weight
+// key, the region weight key and then the store record. When the 2nd or 3rd write fails it
+// returns the error and the served weights are unchanged, but the keys already written stay:
+// after the next successful change of that store the stored weights still differ from the
+// served ones, and a reload (restart / leader change) serves weights of a change that was
+// reported as failed (or half of it).
+func TestFinding_failed_setstoreweight_leaves_weight_keys(t *testing.T) {
+	quiet()
+	f, err := newFixture(Case{})
+	if err != nil {
+		t.Fatal(err)
+	}
+	defer func() { f.cancel() }()
+	if err := f.rc.PutStore(toMeta(mkReq(1, "addr-1", "2.0.0", nil, 0))); err != nil {
+		t.Fatal(err)
+	}
+	f.pending = &fault{mode: "nth", n: 3} // the store record write
+	errW := f.rc.SetStoreWeight(1, 2, 3)
+	f.pending = nil
+	s := f.rc.GetStore(1)
+	servedLW, servedRW := s.GetLeaderWeight(), s.GetRegionWeight()
+	errRemove := f.rc.RemoveStore(1, false) // a later successful change of the same store
+	stored, _ := f.loadStored()
+	if err := f.restart(); err != nil {
+		t.Fatal(err)
+	}
+	r := f.rc.GetStore(1)
+	vkit.Finding(t, KeyWeightKeys, errW != nil && (stored[1].lw != servedLW || stored[1].rw != servedRW), fmt.Sprintf(
+		"store 1 weights (1,1); SetStoreWeight(1,2,3) with the 3rd write (store record) failing: err=%v, served (%v,%v); RemoveStore(1) -> %v, stored weights (%v,%v); after a restart served (%v,%v)",
+		errW, servedLW, servedRW, errRemove, stored[1].lw, stored[1].rw, r.GetLeaderWeight(), r.GetRegionWeight()))
+}
